@@ -50,6 +50,8 @@ def formulas(seed: int, n: int, flavour: str = "nobranch", max_terms: int = 4):
             terms.append(":".join(fs))
         if not terms:
             continue
+        if sum(t.count(k) for t in terms for k in ("bs(", "cr(", "cc(", "cs(")) > 1:
+            continue  # two spline bases on symbolic rows fork into more paths than one exploration's budget (400): one per formula
         f = " + ".join(terms)
         if rng.random() < 0.3:
             f = "0 + " + f
